@@ -530,6 +530,7 @@ impl Check for C04 {
             PhaseSpec { name: "nesting", cases: tier.pick(3_000, 60_000), max_bytes: 300, exhaustive: false },
             // unclosed nestings of every depth followed by another item (quick: every 5th case)
             PhaseSpec { name: "unwind", cases: crate::textgen::unwind_count() / tier.pick(5, 1), max_bytes: 0, exhaustive: true },
+            PhaseSpec { name: "repeat", cases: crate::textgen::repeat_count() / tier.pick(3, 1), max_bytes: 0, exhaustive: true },
             PhaseSpec { name: "artifacts", cases: tier.pick(4_000, 80_000), max_bytes: 48, exhaustive: false },
             // package directories as a file system can present them (odd entries, unreadable text)
             PhaseSpec { name: "layouts", cases: tier.pick(4_000, 60_000), max_bytes: 1500, exhaustive: false },
@@ -569,6 +570,7 @@ impl Check for C04 {
                     Case::new(json!({"text": text, "prog": true}))
                 }
             }
+            "repeat" => Case::new(json!({"text": crate::textgen::repeat_text(if ctx.tier == Tier::Thorough { index } else { index * 3 + ctx.seed % 3 })})),
             "layouts" => Case::new(make_layout_case(&mut d, ctx)),
             _ => Case::new(make_artifact_case(&mut d, ctx)),
         }
@@ -598,7 +600,7 @@ impl Check for C04 {
         }
     }
     fn rule(&self) -> String {
-        "unicode/tokens: random Unicode strings and random goml token sequences; mutate: splice/truncate/duplicate/insert mutations of corpus sources (reach the typer and later stages); prog/illprog: type-directed generated programs with ALL generator gates open (also the shapes other checks exclude because of open findings, hostile identifier pools, every bias) and the same programs with one ill-typed statement injected; nesting: one or mixed syntactic forms (expr, type, pattern) nested 1..256 deep; unwind: 1..300 unclosed nestings x 14 openers x 7 contexts x 13 following items (every 5th in the quick tier); layouts: corpus and generated projects written to disk and then disturbed by 1-3 file-system operations (non-UTF-8 bytes, empty/deleted/duplicated files, a directory named x.gom, dangling symlink, symlink loop, a file where a package directory should be, nested package directory, stray and hidden files, a lower-case twin directory, BOM, CRLF, missing or directory-valued main.gom) and pushed through compile and discover+check+build+link; artifacts: single-leaf JSON mutations and raw text mutations of the interface/core files of every corpus project, fed to read_core+link_cores (core) or check_package+build_package of each dependent (interface). Oracle: every entry point returns without panic/abort/stack overflow on an 8 MiB stack; Err carries >=1 error diagnostic; for single texts every diagnostic range lies in the text on char boundaries and the CLI's formatters accept them. Non-trivial = the input got past parsing and lowering (stage ok/typer/compile) or is an artifact case; distinct by hash of the text.".into()
+        "unicode/tokens: random Unicode strings and random goml token sequences; mutate: splice/truncate/duplicate/insert mutations of corpus sources (reach the typer and later stages); prog/illprog: type-directed generated programs with ALL generator gates open (also the shapes other checks exclude because of open findings, hostile identifier pools, every bias) and the same programs with one ill-typed statement injected; nesting: one or mixed syntactic forms (expr, type, pattern) nested 1..256 deep; unwind: 1..300 unclosed nestings x 14 openers x 7 contexts x 13 following items (every 5th in the quick tier); repeat: one fragment (attribute argument, element, parameter, field, variant, arm, statement, operand, import, comment, type parameter ...) repeated 1..600 times inside each of 21 constructs (every 3rd in the quick tier); layouts: corpus and generated projects written to disk and then disturbed by 1-3 file-system operations (non-UTF-8 bytes, empty/deleted/duplicated files, a directory named x.gom, dangling symlink, symlink loop, a file where a package directory should be, nested package directory, stray and hidden files, a lower-case twin directory, BOM, CRLF, missing or directory-valued main.gom) and pushed through compile and discover+check+build+link; artifacts: single-leaf JSON mutations and raw text mutations of the interface/core files of every corpus project, fed to read_core+link_cores (core) or check_package+build_package of each dependent (interface). Oracle: every entry point returns without panic/abort/stack overflow on an 8 MiB stack; Err carries >=1 error diagnostic; for single texts every diagnostic range lies in the text on char boundaries and the CLI's formatters accept them. Non-trivial = the input got past parsing and lowering (stage ok/typer/compile) or is an artifact case; distinct by hash of the text.".into()
     }
     fn assumptions(&self) -> Vec<String> {
         vec![
